@@ -13,9 +13,12 @@ theorem TInv.of {p p' : P} (h : TInv p) (hle : GB.le p.gb p'.gb) (hl : LibsInv p
     (hsc : ∀ sc ∈ p'.schemas, sc.cat < p'.cats.length) (hst : MapBelow p'.staticTypes p'.schemas.length)
     (hmaps : ∀ pr ∈ p'.processes, ∀ m ∈ pr.maps, m.lib < p'.libs.all.length)
     (hcnt : ∀ c ∈ p'.counters, ∃ pr, p'.processes[c.process]? = some pr ∧ pr.pid = c.pid)
-    (hvis : AllBelow p'.visible p'.threads.length) (hsel : AllBelow p'.selected p'.threads.length) : TInv p' :=
+    (hvis : AllBelow p'.visible p'.threads.length) (hsel : AllBelow p'.selected p'.threads.length)
+    (hkeq : p'.kmaps = p.kmaps := by rfl) (hall : p.libs.all.length ≤ p'.libs.all.length := by exact Nat.le_refl _) :
+    TInv p' :=
   ⟨hl, hg, fun t ht => (hth t ht).elim (fun ho => (h.threads t ho).mono hle) id, hsub,
-   Nat.lt_of_lt_of_le h.catsPos hle.2.2.1, hsc, hst, hmaps, hcnt, hvis, hsel⟩
+   Nat.lt_of_lt_of_le h.catsPos hle.2.2.1, hsc, hst, hmaps, hcnt, hvis, hsel,
+   fun m hm => Nat.lt_of_lt_of_le (h.kmaps m (hkeq ▸ hm)) hall⟩
 
 /-! ### thread-local updates -/
 
@@ -463,6 +466,23 @@ theorem step_TInv (p : P) (h : TInv p) (op : Op) (hv : handlesValid p op = true)
           · exact hv.2
           · exact h.maps _ (List.getElem_mem hv.1) m hold
       · exact counters_set h.counters (List.getElem?_eq_getElem hv.1) rfl
+  | addKernelMapping lib start end_ rel =>
+    simp only [handlesValid, decide_eq_true_eq] at hv
+    simp only [step, hv, if_true]
+    cases hm : mappingAdd p.kmaps ⟨start, end_, rel, lib⟩ with
+    | none => exact h
+    | some maps' =>
+      simp only
+      refine ⟨h.libs, h.gstr, h.threads, h.subsPos, h.catsPos, h.schemaCats, h.statics, h.maps, h.counters,
+        h.visible, h.selected, ?_⟩
+      intro m hmm
+      rcases mappingAdd_libs _ _ _ hm m hmm with rfl | hold
+      · exact hv
+      · exact h.kmaps m hold
+  | removeKernelMapping start =>
+    simp only [step]
+    exact ⟨h.libs, h.gstr, h.threads, h.subsPos, h.catsPos, h.schemaCats, h.statics, h.maps, h.counters,
+      h.visible, h.selected, fun m hm => h.kmaps m (List.mem_filter.mp hm).1⟩
   | removeMapping pi start =>
     simp only [handlesValid, decide_eq_true_eq] at hv
     simp only [step, List.getElem?_eq_getElem hv]
